@@ -306,7 +306,7 @@ theorem pos_requested (G : Geo α) (cs : RPath α) (o : Op α) (e : Pt α) (ht :
 
 /-- `Close` directly after `MoveTo` on top of an OPEN subpath is a no-op: the MoveTo stays and the pen
 stays at its point, so the next drawing call starts a new subpath there (repaired behaviour,
-/repo 60bb9c2). -/
+/repo 58c03cc). -/
 theorem close_after_moveTo_keeps_pen (G : Geo α) (p : Pt α) (c : Cmd α) (rest : RPath α)
     (hc : c.isDraw = true) :
     close G (moveTo p (c :: rest)) = .move p :: c :: rest ∧ pos G (close G (moveTo p (c :: rest))) = p := by
